@@ -41,3 +41,9 @@ Print Assumptions C16_lookup_any_capitalisation.
 Theorem C16_server_roundtrip : forall ts, Forall token_ok ts -> server_parse (server_write ts) = ts.
 Proof. exact server_roundtrip. Qed.
 Print Assumptions C16_server_roundtrip.
+
+(* Cache-Control: every list of directives (the eight plain ones; max-age / max-stale / min-fresh / s-maxage
+   with any delta-seconds 0..LONG_MAX) is read back as the same list *)
+Theorem C16_cache_control_roundtrip : forall ds, Forall ok_dir ds -> cc_parse_top (cc_write ds) = Some ds.
+Proof. exact cc_roundtrip. Qed.
+Print Assumptions C16_cache_control_roundtrip.
